@@ -457,9 +457,19 @@ func modeDicts(mode string) (t, a *datadictionary.DataDictionary) {
 
 // ------------------------------------------------------------------ the implementation driver
 
-type codecImpl struct{ m *quickfix.Message }
+type codecImpl struct {
+	m *quickfix.Message
+	// the group objects handed to SetGroup in this case, by tag and template: `getgrp` reads some groups back through
+	// `written.Clone()` (documented as "a fresh group with the same tag and template") instead of a newly built reader
+	written map[string]*quickfix.RepeatingGroup
+}
 
-func (c *codecImpl) reset(string) { c.m = quickfix.NewMessage() }
+func (c *codecImpl) reset(string) {
+	c.m = quickfix.NewMessage()
+	c.written = map[string]*quickfix.RepeatingGroup{}
+}
+
+func grpKey(tag int, tmpl []tItem) string { return fmt.Sprintf("%d/%v", tag, tmpl) }
 
 func (c *codecImpl) sec(s string) *quickfix.FieldMap {
 	switch s {
@@ -551,7 +561,10 @@ func (c *codecImpl) exec(op string) string {
 			return "ok"
 		case "setgrp":
 			p := 2
-			c.sec(w[1]).SetGroup(parseInst(w, &p).build())
+			gi := parseInst(w, &p)
+			rg := gi.build()
+			c.sec(w[1]).SetGroup(rg)
+			c.written[grpKey(gi.tag, gi.tmpl)] = rg
 			return "ok"
 		case "copy":
 			c.m = copyOf(c.m)
@@ -586,7 +599,16 @@ func (c *codecImpl) exec(op string) string {
 			return "tags " + sortedTagsOf(c.sec(w[1]))
 		case "getgrp":
 			p := 3
-			return obsGroup(c.sec(w[1]), codecMustInt(w[2]), parseTemplate(w, &p))
+			tag, tmpl := codecMustInt(w[2]), parseTemplate(w, &p)
+			if wr, ok := c.written[grpKey(tag, tmpl)]; ok && len(op)%2 == 1 {
+				// same observation through a clone of the group that was written (deterministic choice: replays repeat it)
+				rg := wr.Clone().(*quickfix.RepeatingGroup)
+				if err := c.sec(w[1]).GetGroup(rg); err != nil {
+					return fmt.Sprintf("err %d", err.RejectReason())
+				}
+				return fmt.Sprintf("grp %d", rg.Len()) + obsEntries(rg, tmpl)
+			}
+			return obsGroup(c.sec(w[1]), tag, tmpl)
 		case "ddef":
 			// the dictionary content is an input of the model; here it is checked against the loaded dictionary
 			var want string
